@@ -50,6 +50,10 @@ unsafe extern "C" fn cb_dtor(data: *mut c_void) {
 
 enum C {
     Res(DiplomatResult<P, P>),
+    // the same result with a trivially droppable type on the OTHER arm (what `Result<(), Box<E>>` / `Result<Box<T>, ()>`
+    // look like): ownership is the same, but Drop/Clone/From take different paths (needs_drop, zero-sized arms)
+    ResErrOnly(DiplomatResult<u32, P>),
+    ResOkOnly(DiplomatResult<P, ()>),
     Opt(DiplomatOption<P>),
     Osl(DiplomatOwnedSlice<P>),
     Cb(DiplomatCallback<()>),
@@ -57,6 +61,7 @@ enum C {
 }
 
 struct World {
+    lean: bool, // instantiate results with a trivially droppable other arm
     rust: BTreeMap<String, P>,
     handles: BTreeMap<String, *mut P>,
     conts: BTreeMap<String, C>,
@@ -68,7 +73,7 @@ impl World {
     fn new() -> World {
         DROPS.with(|d| d.borrow_mut().clear());
         track::reset();
-        World { rust: BTreeMap::new(), handles: BTreeMap::new(), conts: BTreeMap::new(), watched: vec![], made: vec![] }
+        World { lean: false, rust: BTreeMap::new(), handles: BTreeMap::new(), conts: BTreeMap::new(), watched: vec![], made: vec![] }
     }
     fn drops(&self) -> Map<String, Value> {
         let mut m = Map::new();
@@ -134,7 +139,12 @@ impl World {
                 let cont = match kind {
                     "res" => {
                         let v = vals.pop().unwrap();
-                        if ev["arm"] == "ok" { C::Res(Ok(v).into()) } else { C::Res(Err(v).into()) }
+                        match (self.lean, ev["arm"] == "ok") {
+                            (false, true) => C::Res(Ok(v).into()),
+                            (false, false) => C::Res(Err(v).into()),
+                            (true, true) => C::ResOkOnly(Ok(v).into()),
+                            (true, false) => C::ResErrOnly(Err(v).into()),
+                        }
                     }
                     "opt" => C::Opt(vals.pop().into()),
                     "oslice" => {
@@ -179,6 +189,18 @@ impl World {
                         }
                     }
                 }
+                C::ResErrOnly(r) => {
+                    let _ = format!("{:?}", r);
+                    if let Err(p) = r.as_ref() {
+                        let _ = p.id.len();
+                    }
+                }
+                C::ResOkOnly(r) => {
+                    let _ = format!("{:?}", r);
+                    if let Ok(p) = r.as_ref() {
+                        let _ = p.id.len();
+                    }
+                }
                 C::Opt(o) => {
                     let _ = o.as_ref().map(|p| p.id.len());
                 }
@@ -202,6 +224,24 @@ impl World {
                             Ok(p) | Err(p) => {
                                 self.rust.insert(p.id.to_string(), p);
                             }
+                        }
+                    }
+                    C::ResErrOnly(r) => {
+                        let std: Result<u32, P> = r.into();
+                        match std {
+                            Err(p) if ev["arm"] != "ok" => {
+                                self.rust.insert(p.id.to_string(), p);
+                            }
+                            _ => return Err("result arm changed".into()),
+                        }
+                    }
+                    C::ResOkOnly(r) => {
+                        let std: Result<P, ()> = r.into();
+                        match std {
+                            Ok(p) if ev["arm"] == "ok" => {
+                                self.rust.insert(p.id.to_string(), p);
+                            }
+                            _ => return Err("result arm changed".into()),
                         }
                     }
                     C::Opt(o) => {
@@ -233,6 +273,8 @@ impl World {
                 NEXT_CLONE.with(|n| n.set(Some(intern(q))));
                 let cl = match &self.conts[&c] {
                     C::Res(r) => C::Res(r.clone()),
+                    C::ResErrOnly(r) => C::ResErrOnly(r.clone()),
+                    C::ResOkOnly(r) => C::ResOkOnly(r.clone()),
                     C::Opt(o) => C::Opt(o.clone()),
                     _ => panic!("clone of non result"),
                 };
@@ -250,8 +292,9 @@ impl World {
     }
 }
 
-fn replay_one(beh: &[Value]) -> Option<Value> {
+fn replay_one(beh: &[Value], lean: bool) -> Option<Value> {
     let mut w = World::new();
+    w.lean = lean;
     for (i, ev) in beh.iter().enumerate() {
         let r = guarded(|| w.step(ev));
         match r {
@@ -280,12 +323,16 @@ pub fn replay(args: &[String]) -> i32 {
     let mut out = Out::create(&args[1]);
     let (mut n, mut bad) = (0u64, 0u64);
     for b in &behs {
-        n += 1;
-        if let Some(mut m) = replay_one(b.as_array().unwrap()) {
-            bad += 1;
-            m["behaviour"] = b.clone();
-            if bad <= 300 {
-                out.line(&m);
+        // every behaviour is replayed with both instantiations of the results' other arm
+        for lean in [false, true] {
+            n += 1;
+            if let Some(mut m) = replay_one(b.as_array().unwrap(), lean) {
+                bad += 1;
+                m["behaviour"] = b.clone();
+                m["other_arm"] = json!(if lean { "trivially droppable" } else { "payload type" });
+                if bad <= 300 {
+                    out.line(&m);
+                }
             }
         }
     }
@@ -306,6 +353,7 @@ pub fn record(args: &[String]) -> i32 {
     let mut nev = 0u64;
     for _ in 0..runs {
         let mut w = World::new();
+        w.lean = rng.chance(1, 2);
         out.line(&json!({"op": "Reset"}));
         nev += 1;
         // shadow state used only to pick *legal* next operations (the contract of the foreign side)
